@@ -31,12 +31,15 @@ CONSTANTS RandomCalls,   \* TRUE: one random call per Invoke (simulation); FALSE
           FreeOps,       \* number of calls after the prefix
           Stride, Offset, \* BFS: the pairs <<call of c1, call of c2>> number Offset, Offset+Stride, ... are explored
           EmitBadOnly,   \* print only schedules at whose end the model of the code has NOT converged
-          MaxFailPolls   \* polls of a drain wait that find the wait NOT over (the code sleeps 200 ms and polls again)
+          MaxFailPolls,  \* polls of a drain wait that find the wait NOT over (the code sleeps 200 ms and polls again)
+          MaxFailClaims, \* passes of a worker that find the oldest entry held by another claim owner
+          PairMode       \* BFS: "all" pairs of calls | "write-read": a queued write against every read
 
 VARIABLES sched, phase, pfx, prg, npoll,
+          nfc,      \* [n |-> failed claims so far, skip |-> one of them happened with a younger entry queued]
           paused    \* random walks: the worker is paused / resumed at generated points, so that queued
                     \* entries pile up and reads / write-through calls really have to wait for it
-gvars == <<vars, sched, phase, pfx, prg, npoll, paused>>
+gvars == <<vars, sched, phase, pfx, prg, npoll, nfc, paused>>
 
 P1 == CHOOSE c \in Clients : \A d \in Clients : c = "c1" \/ d # "c1"
 PB == CHOOSE b \in Buckets : \A d \in Buckets : b = "b1" \/ d # "b1"
@@ -59,8 +62,11 @@ Sensible(c, call) ==
   /\ Routed(call) => Exists(virt, call.b)
 
 \* BFS: every ordered pair of calls (c1's, c2's) on the prefix key, in TLC's fixed set order
-OnPK(call) == call.b = PB /\ call.k \in {"", PK}
-Pairs == SetToSeq({<<a, b>> : a \in {x \in Calls : OnPK(x)}, b \in {x \in Calls : OnPK(x)}})
+OnPK(call) == call.b \in {PB, ""} /\ call.k \in {"", PK}
+PairSet == IF PairMode = "write-read"
+           THEN {<<a, b>> : a \in {x \in Calls : OnPK(x) /\ Routed(x)}, b \in {x \in Calls : OnPK(x) /\ IsRead(x)}}
+           ELSE {<<a, b>> : a \in {x \in Calls : OnPK(x)}, b \in {x \in Calls : OnPK(x)}}
+Pairs == SetToSeq(PairSet)
 P2 == CHOOSE c \in Clients \ {P1} : \A d \in Clients \ {P1} : c = "c2" \/ d # "c2"
 
 GInvoke(c) ==
@@ -69,10 +75,10 @@ GInvoke(c) ==
      THEN LET ok == {call \in Calls : Sensible(c, call)} IN
           /\ ok # {}
           /\ \E call \in {RandomElement(ok)} : Invoke(c, call) /\ Rec(c, "Invoke", call)
-          /\ prg' = prg /\ paused' = paused /\ npoll' = npoll
+          /\ prg' = prg /\ paused' = paused /\ npoll' = npoll /\ nfc' = nfc
      ELSE /\ prg[c] # <<>>
           /\ Invoke(c, Head(prg[c])) /\ Rec(c, "Invoke", Head(prg[c]))
-          /\ prg' = [prg EXCEPT ![c] = Tail(@)] /\ paused' = paused /\ npoll' = npoll
+          /\ prg' = [prg EXCEPT ![c] = Tail(@)] /\ paused' = paused /\ npoll' = npoll /\ nfc' = nfc
 
 \* a poll that finds an entry of the snapshot still queued: no change in the model; the real call must
 \* go on waiting (this is what exposes a wait that ends too early)
@@ -80,52 +86,60 @@ FailedPoll(c) ==
   /\ cl[c].pc = "poll" /\ ~CodeDone(c) /\ npoll < MaxFailPolls
   /\ npoll' = npoll + 1
   /\ Rec(c, "DrainPoll", NoCall)
-  /\ UNCHANGED <<vars, prg, paused>>
+  /\ UNCHANGED <<vars, prg, paused, nfc>>
 
 ClientStep(c) ==
-  /\ prg' = prg /\ paused' = paused /\ npoll' = npoll
+  /\ prg' = prg /\ paused' = paused /\ npoll' = npoll /\ nfc' = nfc
   /\ \/ Route(c) /\ Rec(c, "Route", NoCall)
      \/ Enqueue(c) /\ Rec(c, "Enqueue", NoCall)
      \/ DrainStart(c) /\ Rec(c, "DrainStart", NoCall)
      \/ DrainPoll(c) /\ Rec(c, "DrainPoll", NoCall)
      \/ Inner(c) /\ Rec(c, "Inner", NoCall)
 
-ReplayOK == wk.pc = "claimed" /\ ApplyEntry(inner, queue[QIdx(wk.seq)]).r.err = ""
-WorkerStep ==
-  /\ prg' = prg /\ ~paused /\ paused' = paused /\ npoll' = npoll
-  /\ \/ Claim /\ Rec("w", "Claim", NoCall)
-     \/ ReplayOK /\ Replay /\ Rec("w", "Replay", NoCall)
-     \/ Finalize /\ Rec("w", "Finalize", NoCall)
+W1 == CHOOSE w \in Workers : \A d \in Workers : w = "w" \/ d # "w"
+ReplayOK(w) == wk[w].pc = "claimed" /\ ApplyEntry(inner, queue[QIdx(wk[w].seq)]).r.err = ""
+WorkerStep(w) ==
+  /\ prg' = prg /\ ~paused /\ paused' = paused /\ npoll' = npoll /\ nfc' = nfc
+  /\ \/ Claim(w) /\ Rec(w, "Claim", NoCall)
+     \/ ReplayOK(w) /\ Replay(w) /\ Rec(w, "Replay", NoCall)
+     \/ Finalize(w) /\ Rec(w, "Finalize", NoCall)
+\* a pass of worker w while another claim owner holds the oldest entry: the claim must fail and w
+\* must not touch any younger entry (no change in the model)
+FailedClaim(w) ==
+  /\ wk[w].pc = "idle" /\ queue # <<>> /\ queue[1].owner \notin {"", w} /\ nfc.n < MaxFailClaims /\ ~paused
+  /\ nfc' = [n |-> nfc.n + 1, skip |-> nfc.skip \/ Len(queue) >= 2]
+  /\ Rec(w, "Claim", NoCall)
+  /\ UNCHANGED <<vars, prg, paused, npoll>>
 
-WorkerCan == \/ (wk.pc = "idle" /\ queue # <<>> /\ ~queue[1].claimed)
-             \/ wk.pc \in {"claimed", "replayed"}
+WorkerCan == \/ (wk[W1].pc = "idle" /\ queue # <<>> /\ queue[1].owner = "")
+             \/ wk[W1].pc \in {"claimed", "replayed"}
 AllIdle == \A c \in Clients : cl[c].pc = "idle"
 
 \* the forced prefix: client P1 runs the prefix calls one after the other, the worker drains
 \* the queue after each
 PrefixNext ==
   /\ phase = "prefix"
-  /\ IF WorkerCan THEN WorkerStep /\ UNCHANGED <<phase, pfx>>
+  /\ IF WorkerCan THEN WorkerStep(W1) /\ UNCHANGED <<phase, pfx>>
      ELSE IF cl[P1].pc # "idle" THEN ClientStep(P1) /\ UNCHANGED <<phase, pfx>>
      ELSE IF pfx < Len(PrefixCalls)
-     THEN Invoke(P1, PrefixCalls[pfx + 1]) /\ Rec(P1, "Invoke", PrefixCalls[pfx + 1]) /\ pfx' = pfx + 1 /\ phase' = phase /\ prg' = prg /\ paused' = paused /\ npoll' = npoll
-     ELSE phase' = "free" /\ UNCHANGED <<vars, sched, pfx, prg, paused, npoll>>
+     THEN Invoke(P1, PrefixCalls[pfx + 1]) /\ Rec(P1, "Invoke", PrefixCalls[pfx + 1]) /\ pfx' = pfx + 1 /\ phase' = phase /\ prg' = prg /\ paused' = paused /\ npoll' = npoll /\ nfc' = nfc
+     ELSE phase' = "free" /\ UNCHANGED <<vars, sched, pfx, prg, paused, npoll, nfc>>
 
 \* not a step of the code: only changes which schedules the walk can produce
 TogglePause ==
   /\ RandomCalls
   /\ IF paused THEN TRUE ELSE cnt.ops < Len(PrefixCalls) + FreeOps   \* no new pause once every call was started
   /\ paused' = ~paused
-  /\ UNCHANGED <<vars, sched, prg, npoll>>
+  /\ UNCHANGED <<vars, sched, prg, npoll, nfc>>
 
 FreeNext ==
   /\ phase = "free"
   /\ UNCHANGED <<phase, pfx>>
   /\ \/ \E c \in Clients : GInvoke(c) \/ ClientStep(c) \/ FailedPoll(c)
-     \/ WorkerStep
+     \/ \E w \in Workers : WorkerStep(w) \/ FailedClaim(w)
      \/ TogglePause
 
-GInit == /\ Init /\ sched = <<>> /\ phase = "prefix" /\ pfx = 0 /\ paused = FALSE /\ npoll = 0
+GInit == /\ Init /\ sched = <<>> /\ phase = "prefix" /\ pfx = 0 /\ paused = FALSE /\ npoll = 0 /\ nfc = [n |-> 0, skip |-> FALSE]
          /\ IF RandomCalls THEN prg = [c \in Clients |-> <<>>]
             ELSE \E i \in {j \in 1..Len(Pairs) : j % Stride = Offset % Stride} :
                    prg = [c \in Clients |-> IF c = P1 THEN <<Pairs[i][1]>> ELSE IF c = P2 THEN <<Pairs[i][2]>> ELSE <<>>]
@@ -136,5 +150,5 @@ Terminal == /\ phase = "free" /\ AllIdle /\ Drained
             /\ cnt.ops = Len(PrefixCalls) + FreeOps
 \* the schedule is printed once it is complete
 Bad == Proj(inner) # Proj(virt) \/ ~ReadYourWrites \/ ~CondSound
-Emit == IF Terminal /\ (Bad \/ ~EmitBadOnly) THEN PrintT(ToJson([steps |-> sched, taken |-> taken, bad |-> Bad])) ELSE TRUE
+Emit == IF Terminal /\ (Bad \/ ~EmitBadOnly) THEN PrintT(ToJson([steps |-> sched, taken |-> taken, bad |-> Bad, heldskip |-> nfc.skip])) ELSE TRUE
 =============================================================================
